@@ -508,6 +508,9 @@ EXTRA5 = {
  "C18": dict(
   technique="; API-variant dimension of the log-list filter (MCLogFilter.tla: TemporallyCompatible, Compatible, RootCompatible alone and composed in both orders x root nil / CA / not CA x roots knowledge none / accepts / rejects x certificate nil / NotAfter at every tick; VariantIsWindow, VariantsAgree): 2653 lists x 75 calls exported by TLC, replayed on lists built directly in two operator layouts and parsed from JSON, roots collection nil / empty / padded, in every frame",
   note=" Named clauses RootClause and NilCertNothing; a nil pool as roots entry is not materialized."),
+ "C02": dict(
+  technique="; entries as bytes: every certificate of the 33 base chains at every position in 4 encodings (DER, padded serial / version INTEGER re-signed, padded length) x 5 trailers, and a trusted pool holding a padded root; every case realized in 4 frames of the time line (ordinary before / after the wall clock, 500..1950 and 2049..9999 with both ends of the int64-nanosecond range between leaf and CA NotAfter); 324 NotAfter windows as configured (start / limit absent or at 8 instants, 4 rests) x 8 leaves x every frame x 3 routes",
+  note=" Named clauses PaddedIntegersRead, PaddedLengthRefused, PaddedPrecertRefused (observation: add-pre-chain refuses a padded precertificate leaf that ValidateChain accepts; fail-closed, the text is silent); laws EntryLaw, FrameFree, WindowIsTheText."),
 }
 for _pid, _e in EXTRA5.items():
     EXTRA4.setdefault(_pid, {})
